@@ -99,6 +99,12 @@ add("C05", "model_checking",
     "Trusted: the loop specification and the bar-grid arithmetic in mc/checks/c05.py. Actions made in finalize() are outside the bars.",
     "DESIGN.md §5 C05")
 
+add("C02", "model_checking",
+    "differential exploration through the real Actuator.run: base history vs history with a varied future (cut k x variant x strategy x interval x world), fresh objects each, prefix rows / actions / snapshot digests compared value for value; plus input-frame digests before vs after and a re-run on the same frames",
+    "9 worlds (pool in both orientations, Aave over a liquidating path, pool + Aave, Squeeth + pool, options alone, options beside a minutely pool, GLP, GM) x intervals 1min / 2min / 5min x strategies (idle, seeded portfolio, trading every bar, data-dependent) x every cut k x future variants (values shocked incl. liquidation / index / book changes, future rows reversed in time, history truncated right after the cut). The variant is applied to the RAW frames so the repository's preparation code (statistic columns with shift(1), price extraction, resampling) is inside the comparison. Judged: account_status_df rows 0..k, every action stamped <= bar k, every snapshot digest (taken at hand-over) for bars <= k identical; every input frame (incl. order-book lists) unchanged by a run; a second run on the same frames with fresh Actuator / Broker / markets reproduces history and actions exactly.",
+    "Trusted: the frame digests (mc/worlds/base.py) and the variant generator. Variants whose derived price frame has no price for a prefix bar (a one-hour option history at midnight) are not comparable and skipped (counted).",
+    "DESIGN.md §5 C02")
+
 _PENDING = "check not built yet in this round (planned: bounded exhaustive exploration, see DESIGN.md §5); listed here until its check is registered"
 for _i in range(1, 21):
     _p = f"C{_i:02d}"
